@@ -525,6 +525,7 @@ impl EdgeDeletionEntry {
 
     ///
     /// find the edge author to verify authorisation before deletion
+    /// entries whose source node is stored in another room than the entry's room are dropped
     ///
     pub fn with_source_authors(
         edges: Vec<Self>,
@@ -541,7 +542,20 @@ impl EdgeDeletionEntry {
             dest=? AND 
             cdate=?";
         let mut stmt = conn.prepare_cached(query)?;
+        let source_room_query = "SELECT room_id FROM _node WHERE id=? AND _entity=?";
+        let mut source_room_stmt = conn.prepare_cached(source_room_query)?;
         for e in edges {
+            //a deletion applies to the room of its source node: an entry whose source is stored in another room is ignored
+            let source_room: Option<Option<Uid>> = source_room_stmt
+                .query_row((&e.src, &e.src_entity), |row| row.get(0))
+                .optional()?;
+            if let Some(source_room) = source_room {
+                match source_room {
+                    Some(room) if room.eq(&e.room_id) => {}
+                    _ => continue,
+                }
+            }
+
             let rs: Option<Vec<u8>> = stmt
                 .query_row(
                     (&e.src, &e.src_entity, &e.label, &e.dest, &e.cdate),
